@@ -21,7 +21,8 @@ pub enum DagOp {
   RemOut { s: u16 },
   RemNode { s: u16 },
   /// One query, compared with the reference on the spot (no sweep): kind 0 contains_transitive_edge, 1 contains_edge,
-  /// 2 get_edge_data, 3 topo_cmp, 4 descendants(a), 5 descendants_unsorted(a), 6 outgoing(a), 7 incoming(a).
+  /// 2 get_edge_data, 3 topo_cmp, 4 descendants(a), 5 descendants_unsorted(a), 6 outgoing(a), 7 incoming(a),
+  /// 8 / 9 descendants(a) / descendants_unsorted(a) consumed lazily with a complete traversal from b started in the middle.
   Q { kind: u8, a: u16, b: u16 },
   /// Repeat the k-th most recent query (same kind, same nodes).
   QAgain { k: u8 },
@@ -68,7 +69,7 @@ pub fn op_strategy() -> impl Strategy<Value=DagOp> {
     2 => any::<u16>().prop_map(|k| DagOp::RemExisting { k }),
     1 => any::<u16>().prop_map(|s| DagOp::RemOut { s }),
     1 => any::<u16>().prop_map(|s| DagOp::RemNode { s }),
-    4 => (prop_oneof![3 => Just(0u8), 1 => 1u8..8], any::<u16>(), any::<u16>()).prop_map(|(kind, a, b)| DagOp::Q { kind, a, b }),
+    4 => (prop_oneof![3 => Just(0u8), 2 => 1u8..8, 1 => 8u8..10], any::<u16>(), any::<u16>()).prop_map(|(kind, a, b)| DagOp::Q { kind, a, b }),
     3 => (0u8..4).prop_map(|k| DagOp::QAgain { k }),
   ]
 }
@@ -359,7 +360,7 @@ pub fn run_case(case: &DagCase, check_every: bool, facts: &mut DagFacts) -> Vec<
       DagOp::Q { .. } | DagOp::QAgain { .. } => {
         if total == 0 { continue; }
         let (kind, a, b) = match op {
-          DagOp::Q { kind, a, b } => (*kind % 8, pick(*a, total), pick(*b, total)),
+          DagOp::Q { kind, a, b } => (*kind % 10, pick(*a, total), pick(*b, total)),
           DagOp::QAgain { k } => { if recent.is_empty() { continue; } recent[recent.len() - 1 - (*k as usize % recent.len())] }
           _ => unreachable!(),
         };
@@ -439,6 +440,34 @@ fn single_query(sut: &Sut, m: &Model, kind: u8, i: usize, j: usize, step: usize,
       let got: Option<Vec<usize>> = if kind == 4 { sut.dag.descendants(a).ok().map(|it| it.map(|nd| sut.ix(&nd)).collect()) } else { sut.dag.descendants_unsorted(a).ok().map(|it| it.map(|(_, nd)| sut.ix(&nd)).collect()) };
       let got_set: Option<BTreeSet<usize>> = got.as_ref().map(|v| v.iter().cloned().collect());
       if got_set != want || got.as_ref().map(|v| v.len()) != want.as_ref().map(|s| s.len()) { fails.push((Tag::C11, at(format!("descendants{}({}) = {:?}, reference set {:?}", if kind == 5 { "_unsorted" } else { "" }, i, got, want)))); }
+    }
+    8 | 9 => {
+      // Two iterators alive at once: the outer one must not be disturbed by the inner traversal.
+      let want = if m.live(i) { Some(m.reach_set(i)) } else { None };
+      let mut got: Option<Vec<usize>> = None;
+      let mut inner_runs = 0;
+      if kind == 8 {
+        if let Ok(mut it) = sut.dag.descendants(a) {
+          let mut v = vec![];
+          while let Some(nd) = it.next() {
+            v.push(sut.ix(&nd));
+            if v.len() % 2 == 1 { if let Ok(inner) = sut.dag.descendants_unsorted(b) { inner_runs += inner.count().min(1); } if let Ok(inner) = sut.dag.descendants(b) { let _ = inner.count(); } }
+          }
+          got = Some(v);
+        }
+      } else if let Ok(mut it) = sut.dag.descendants_unsorted(a) {
+        let mut v = vec![];
+        while let Some((_, nd)) = it.next() {
+          v.push(sut.ix(&nd));
+          if v.len() % 2 == 1 { if let Ok(inner) = sut.dag.descendants(b) { inner_runs += inner.count().min(1); } if let Ok(inner) = sut.dag.descendants_unsorted(b) { let _ = inner.count(); } }
+        }
+        got = Some(v);
+      }
+      let _ = inner_runs;
+      let got_set: Option<BTreeSet<usize>> = got.as_ref().map(|v| v.iter().cloned().collect());
+      if got_set != want || got.as_ref().map(|v| v.len()) != want.as_ref().map(|s| s.len()) {
+        fails.push((Tag::C11, at(format!("descendants{}({}) consumed lazily while another traversal from {} ran in between = {:?}, reference set {:?}", if kind == 9 { "_unsorted" } else { "" }, i, j, got, want))));
+      }
     }
     6 => {
       let got: Vec<(usize, u8)> = sut.dag.get_outgoing_edges(a).map(|(d, e)| (sut.ix(d), *e)).collect();
